@@ -17,58 +17,6 @@ theorem splitPath_ne_nil (s : String) : splitPath s ≠ [] := by
   · simp
   · exact splitOnAux_ne_nil _ _ _ _ _ _
 
-/-! ### Segments: ParseIndex versus Atoi -/
-
-theorem isDigit_ne_sign {c : Char} (h : isDigit c = true) : c ≠ '+' ∧ c ≠ '-' := by
-  constructor <;> (intro e; subst e; revert h; decide)
-
-/-- an unsigned numeral is read identically by ParseIndex and Atoi. -/
-theorem atoi_of_parseIndex {s : String} {n : Nat} (h : parseIndex s = some n) : atoi s = some (n : Int) := by
-  unfold parseIndex at h
-  unfold atoi
-  generalize s.toList = cs at h ⊢
-  cases cs with
-  | nil => simp at h
-  | cons c r =>
-    simp only at h
-    split at h
-    · rename_i hall
-      have hc : isDigit c = true := by simp [List.all_cons] at hall; exact hall.1
-      obtain ⟨h1, h2⟩ := isDigit_ne_sign hc
-      split at h
-      · rename_i hle
-        injection h with h; subst h
-        simp only []
-        rw [atoi.match_1.eq_3 _ (c :: r) _ _ _ (fun r1 e => h1 (List.cons.inj e).1)
-          (fun r1 e => h2 (List.cons.inj e).1)]
-        simp only [hall, hle, if_true]
-        simp
-      · simp at h
-    · simp at h
-
-/-- A segment is *canonical* when `get` (ParseIndex) and `put` (Atoi) read it the same way:
-    whenever Atoi accepts it (optional sign + digits), ParseIndex accepts it too (digits only).
-    Non-canonical: "+1", "-0", "-3". Leading zeros ("01") are canonical in this sense. -/
-def canonSeg (s : String) : Bool := (atoi s).isNone || (parseIndex s).isSome
-
-def canonPath (p : Path) : Bool := p.all canonSeg
-
-theorem parseIndex_of_canon {s : String} {i : Int} (hc : canonSeg s = true) (h : atoi s = some i) :
-    parseIndex s = some i.toNat ∧ 0 ≤ i := by
-  unfold canonSeg at hc
-  rw [h] at hc
-  simp at hc
-  obtain ⟨n, hn⟩ := Option.isSome_iff_exists.mp hc
-  have := atoi_of_parseIndex hn
-  rw [h] at this
-  injection this with this
-  subst this
-  simp [hn]
-
-theorem canonSeg_false_of {s : String} {i : Int} (h : atoi s = some i) (hp : parseIndex s = none) :
-    canonSeg s = false := by
-  simp [canonSeg, h, hp]
-
 /-! ### list helpers -/
 
 theorem listSet_eq_set {α} (l : List α) (n : Nat) (x : α) : listSet l n x = l.set n x := by
@@ -195,14 +143,14 @@ theorem put_doc_hit {fs : List (String × V)} {key : String} {rest : Path} {x : 
   rw [put]; simp only [hk, hi, he, hc, hm, listSet_eq_set]; simp
 
 theorem put_arr_hit {xs : List V} {key : String} {rest : Path} {x : V} {pre : Bool}
-    {index : Int} {old nvc pv : V}
-    (hk : ¬(key == "" && rest.isEmpty) = true) (ha : atoi key = some index)
-    (hr : ¬(decide (index < 0) || index == (maxInt : Int)) = true)
-    (he : xs[index.toNat]? = some old) (hc : put old rest x pre = .ok (nvc, pv))
+    {index : Nat} {old nvc pv : V}
+    (hk : ¬(key == "" && rest.isEmpty) = true) (ha : parseIndex key = some index)
+    (hr : ¬(index == maxInt) = true)
+    (he : xs[index]? = some old) (hc : put old rest x pre = .ok (nvc, pv))
     (hm : nvc.isMissing = false) :
-    put (.arr xs) (key :: rest) x pre = .ok (.arr (xs.set index.toNat nvc), pv) := by
-  have hlt : index.toNat < xs.length := by
-    rcases Nat.lt_or_ge index.toNat xs.length with h | h
+    put (.arr xs) (key :: rest) x pre = .ok (.arr (xs.set index nvc), pv) := by
+  have hlt : index < xs.length := by
+    rcases Nat.lt_or_ge index xs.length with h | h
     · exact h
     · rw [List.getElem?_eq_none h] at he; cases he
   rw [put]; simp only [hk, ha, hr, hlt, he, hc, hm, listSet_eq_set]; simp
@@ -215,27 +163,27 @@ theorem put_doc_hit_err {fs : List (String × V)} {key : String} {rest : Path} {
   rw [put]; simp only [hk, hi, he, hc]; simp
 
 theorem put_arr_hit_err {xs : List V} {key : String} {rest : Path} {x : V} {pre : Bool}
-    {index : Int} {old : V} {e : Err}
-    (hk : ¬(key == "" && rest.isEmpty) = true) (ha : atoi key = some index)
-    (hr : ¬(decide (index < 0) || index == (maxInt : Int)) = true)
-    (he : xs[index.toNat]? = some old) (hc : put old rest x pre = .error e) :
+    {index : Nat} {old : V} {e : Err}
+    (hk : ¬(key == "" && rest.isEmpty) = true) (ha : parseIndex key = some index)
+    (hr : ¬(index == maxInt) = true)
+    (he : xs[index]? = some old) (hc : put old rest x pre = .error e) :
     put (.arr xs) (key :: rest) x pre = .error e := by
-  have hlt : index.toNat < xs.length := by
-    rcases Nat.lt_or_ge index.toNat xs.length with h | h
+  have hlt : index < xs.length := by
+    rcases Nat.lt_or_ge index xs.length with h | h
     · exact h
     · rw [List.getElem?_eq_none h] at he; cases he
   rw [put]; simp only [hk, ha, hr, hlt, he, hc]; simp
 
 /-- unsetting an array element whose sub-path removal yields the marker stores null. -/
 theorem put_arr_hit_null {xs : List V} {key : String} {rest : Path} {x : V} {pre : Bool}
-    {index : Int} {old nvc pv : V}
-    (hk : ¬(key == "" && rest.isEmpty) = true) (ha : atoi key = some index)
-    (hr : ¬(decide (index < 0) || index == (maxInt : Int)) = true)
-    (he : xs[index.toNat]? = some old) (hc : put old rest x pre = .ok (nvc, pv))
+    {index : Nat} {old nvc pv : V}
+    (hk : ¬(key == "" && rest.isEmpty) = true) (ha : parseIndex key = some index)
+    (hr : ¬(index == maxInt) = true)
+    (he : xs[index]? = some old) (hc : put old rest x pre = .ok (nvc, pv))
     (hm : nvc.isMissing = true) :
-    put (.arr xs) (key :: rest) x pre = .ok (.arr (xs.set index.toNat .null), pv) := by
-  have hlt : index.toNat < xs.length := by
-    rcases Nat.lt_or_ge index.toNat xs.length with h | h
+    put (.arr xs) (key :: rest) x pre = .ok (.arr (xs.set index .null), pv) := by
+  have hlt : index < xs.length := by
+    rcases Nat.lt_or_ge index xs.length with h | h
     · exact h
     · rw [List.getElem?_eq_none h] at he; cases he
   rw [put]; simp only [hk, ha, hr, hlt, he, hc, hm, listSet_eq_set]; simp
@@ -273,18 +221,14 @@ theorem put_doc_isDoc (fs : List (String × V)) (key : String) (rest : Path) (x 
 
 /-! ### get after put -/
 
-theorem canonPath_cons (a : String) (r : Path) : canonPath (a :: r) = (canonSeg a && canonPath r) := by
-  simp [canonPath]
-
-/-- Reading back the path just written (no fan-out): either the written value, or — only when some
-    segment is a signed numeral applied to an array — Missing both before and after the write. -/
-theorem get_put_gen (v : V) (p : Path) (x : V) (pre : Bool) (nv prev : V) (k : Bool)
+/-- `get_put_same`: reading back the path just written (no fan-out) yields the written value.
+    No side condition on the path: `put` and `get` parse array indexes identically (ParseIndex). -/
+theorem get_put_same (v : V) (p : Path) (x : V) (pre : Bool) (nv prev : V) (k : Bool)
     (h : put v p x pre = .ok (nv, prev)) (hx : x.isMissing = false) :
-    get nv p false k = (x, false) ∨
-      (canonPath p = false ∧ get nv p false k = (.missing, false) ∧ get v p false k = (.missing, false)) := by
+    get nv p false k = (x, false) := by
   fun_induction put v p x pre generalizing nv prev <;> cases h
   · -- []
-    left; exact get_nil _ _ _
+    exact get_nil _ _ _
   · -- doc, field present, child removed: impossible for a present value
     rename_i h1 hm _
     have := put_not_missing _ _ _ _ _ _ h1 hx
@@ -296,102 +240,41 @@ theorem get_put_gen (v : V) (p : Path) (x : V) (pre : Bool) (nv prev : V) (k : B
     have e1 : get (.doc (listSet fs i (kk, nvc))) (key :: rest) false k = get nvc rest false k := by
       rw [get_cons_doc _ _ _ _ _ hk, getField_eq, listSet_eq_set, fieldIndex_set nvc he, hi]
       simp [hlt]
-    have e2 : get (.doc fs) (key :: rest) false k = get old rest false k := by
-      rw [get_cons_doc _ _ _ _ _ hk, getField_eq, hi]; simp [he]
-    rw [e1, e2, canonPath_cons]
-    rcases ih _ _ hc with h' | ⟨c1, c2, c3⟩
-    · left; exact h'
-    · right; exact ⟨by simp [c1], c2, c3⟩
+    rw [e1]; exact ih _ _ hc
   · -- doc, new field, prepend
     rename_i key rest hk fs hi hvm nvc pv hc hpre ih
     have e1 : get (.doc ((key, nvc) :: fs)) (key :: rest) false k = get nvc rest false k := by
       rw [get_cons_doc _ _ _ _ _ hk, getField_eq, fieldIndex_cons]; simp
-    have e2 : get (.doc fs) (key :: rest) false k = (.missing, false) := by
-      rw [get_cons_doc _ _ _ _ _ hk, getField_eq, hi]
-    rw [e1, e2, canonPath_cons]
-    rcases ih _ _ hc with h' | ⟨c1, c2, _⟩
-    · left; exact h'
-    · right; exact ⟨by simp [c1], c2, rfl⟩
+    rw [e1]; exact ih _ _ hc
   · -- doc, new field, append
     rename_i key rest hk fs hi hvm nvc pv hc hpre ih
     have e1 : get (.doc (fs ++ [(key, nvc)])) (key :: rest) false k = get nvc rest false k := by
       rw [get_cons_doc _ _ _ _ _ hk, getField_eq, fieldIndex_append_new nvc hi]; simp
-    have e2 : get (.doc fs) (key :: rest) false k = (.missing, false) := by
-      rw [get_cons_doc _ _ _ _ _ hk, getField_eq, hi]
-    rw [e1, e2, canonPath_cons]
-    rcases ih _ _ hc with h' | ⟨c1, c2, _⟩
-    · left; exact h'
-    · right; exact ⟨by simp [c1], c2, rfl⟩
+    rw [e1]; exact ih _ _ hc
   · -- array, element present
-    rename_i key rest hk xs index ha hr idx hlt old he nvc pv hc ih
-    have hidx : idx = index.toNat := rfl
-    clear_value idx; subst hidx
+    rename_i key rest hk xs idx ha hr hlt old he nvc pv hc ih
     have hnm := put_not_missing _ _ _ _ _ _ hc hx
     simp only [hnm, Bool.false_eq_true, if_false, listSet_eq_set]
-    rw [get_cons_arr _ _ _ _ hk, get_cons_arr _ _ _ _ hk, canonPath_cons]
-    cases hp : parseIndex key with
-    | none =>
-      right; simp [canonSeg_false_of ha hp]
-    | some j =>
-      have := atoi_of_parseIndex hp
-      rw [ha] at this
-      injection this with this
-      subst this
-      simp only [Int.toNat_natCast] at he hlt ⊢
-      simp only [List.getElem?_set_self hlt, he]
-      rcases ih _ _ hc with h' | ⟨c1, c2, c3⟩
-      · left; exact h'
-      · right; exact ⟨by simp [c1], c2, c3⟩
+    rw [get_cons_arr _ _ _ _ hk]
+    simp only [ha, List.getElem?_set_self hlt]
+    exact ih _ _ hc
   · -- array, padded
-    rename_i key rest hk xs index ha hr idx hlt hvm nvc pv hc ih
-    have hidx : idx = index.toNat := rfl
-    clear_value idx; subst hidx
+    rename_i key rest hk xs idx ha hr hlt hvm hpad nvc pv hc ih
     have hnm := put_not_missing _ _ _ _ _ _ hc hx
     simp only [hnm, Bool.false_eq_true, if_false]
-    rw [get_cons_arr _ _ _ _ hk, get_cons_arr _ _ _ _ hk, canonPath_cons]
-    cases hp : parseIndex key with
-    | none =>
-      right; simp [canonSeg_false_of ha hp]
-    | some j =>
-      have := atoi_of_parseIndex hp
-      rw [ha] at this
-      injection this with this
-      subst this
-      simp only [Int.toNat_natCast] at hlt ⊢
-      have hge : xs.length ≤ j := Nat.le_of_not_lt hlt
-      have e3 : (xs ++ List.replicate (j - xs.length) V.null ++ [nvc])[j]? = some nvc := by
-        rw [List.getElem?_append_right (by simp; omega)]
-        have : j - (xs ++ List.replicate (j - xs.length) V.null).length = 0 := by simp; omega
-        rw [this]; rfl
-      simp only [e3, List.getElem?_eq_none hge]
-      rcases ih _ _ hc with h' | ⟨c1, c2, _⟩
-      · left; exact h'
-      · right; exact ⟨by simp [c1], c2, trivial⟩
+    rw [get_cons_arr _ _ _ _ hk]
+    have hge : xs.length ≤ idx := Nat.le_of_not_lt hlt
+    have e3 : (xs ++ List.replicate (idx - xs.length) V.null ++ [nvc])[idx]? = some nvc := by
+      rw [List.getElem?_append_right (by simp; omega)]
+      have : idx - (xs ++ List.replicate (idx - xs.length) V.null).length = 0 := by simp; omega
+      rw [this]; rfl
+    simp only [ha, e3]
+    exact ih _ _ hc
   · -- missing: create a document
     rename_i key rest hk hvm nvc pv hc ih
     have e1 : get (.doc [(key, nvc)]) (key :: rest) false k = get nvc rest false k := by
       rw [get_cons_doc _ _ _ _ _ hk, getField_eq, fieldIndex_cons]; simp
-    rw [e1, get_cons_missing, canonPath_cons]
-    rcases ih _ _ hc with h' | ⟨c1, c2, _⟩
-    · left; exact h'
-    · right; exact ⟨by simp [c1], c2, rfl⟩
-
-/-- `get_put_same`: on a canonical path the value just written is read back. -/
-theorem get_put_same (v : V) (p : Path) (x : V) (pre : Bool) (nv prev : V) (k : Bool)
-    (h : put v p x pre = .ok (nv, prev)) (hx : x.isMissing = false) (hp : canonPath p = true) :
-    get nv p false k = (x, false) := by
-  rcases get_put_gen v p x pre nv prev k h hx with h' | ⟨c1, _, _⟩
-  · exact h'
-  · rw [hp] at c1; cases c1
-
-/-- if the path held a value before, the written value is read back (no canonicity needed). -/
-theorem get_put_of_present (v : V) (p : Path) (x : V) (pre : Bool) (nv prev : V) (k : Bool)
-    (h : put v p x pre = .ok (nv, prev)) (hx : x.isMissing = false)
-    (hv : (get v p false k).1.isMissing = false) :
-    get nv p false k = (x, false) := by
-  rcases get_put_gen v p x pre nv prev k h hx with h' | ⟨_, _, c3⟩
-  · exact h'
-  · rw [c3] at hv; cases hv
+    rw [e1]; exact ih _ _ hc
 
 /-! ### put is idempotent -/
 
@@ -430,23 +313,19 @@ theorem put_idempotent (v : V) (p : Path) (x : V) (pre : Bool) (nv prev : V)
     have he' : (fs ++ [(key, nvc)])[fs.length]? = some (key, nvc) := by simp
     rw [put_doc_hit hk (fieldIndex_append_new nvc hi) he' (ih _ _ hc) hnm]
     rw [set_self_of_getElem? he']
-  · rename_i key rest hk xs index ha hr idx hlt old he nvc pv hc ih
-    have hidx : idx = index.toNat := rfl
-    clear_value idx; subst hidx
+  · rename_i key rest hk xs idx ha hr hlt old he nvc pv hc ih
     have hnm := put_not_missing _ _ _ _ _ _ hc hx
     simp only [hnm, Bool.false_eq_true, if_false, listSet_eq_set]
-    have he' : (xs.set index.toNat nvc)[index.toNat]? = some nvc := by simp [hlt]
+    have he' : (xs.set idx nvc)[idx]? = some nvc := by simp [hlt]
     rw [put_arr_hit hk ha hr he' (ih _ _ hc) hnm]
     simp
-  · rename_i key rest hk xs index ha hr idx hlt hvm nvc pv hc ih
-    have hidx : idx = index.toNat := rfl
-    clear_value idx; subst hidx
+  · rename_i key rest hk xs idx ha hr hlt hvm hpad nvc pv hc ih
     have hnm := put_not_missing _ _ _ _ _ _ hc hx
     simp only [hnm, Bool.false_eq_true, if_false]
-    have hge : xs.length ≤ index.toNat := Nat.le_of_not_lt hlt
-    have he' : (xs ++ List.replicate (index.toNat - xs.length) V.null ++ [nvc])[index.toNat]? = some nvc := by
+    have hge : xs.length ≤ idx := Nat.le_of_not_lt hlt
+    have he' : (xs ++ List.replicate (idx - xs.length) V.null ++ [nvc])[idx]? = some nvc := by
       rw [List.getElem?_append_right (by simp; omega)]
-      have : index.toNat - (xs ++ List.replicate (index.toNat - xs.length) V.null).length = 0 := by
+      have : idx - (xs ++ List.replicate (idx - xs.length) V.null).length = 0 := by
         simp; omega
       rw [this]; rfl
     rw [put_arr_hit hk ha hr he' (ih _ _ hc) hnm]
@@ -658,15 +537,13 @@ theorem put_missing_twice (v : V) (p : Path) (pre : Bool) (nv prev : V)
   · exact absurd rfl ‹¬ V.missing.isMissing = true›
   · exact absurd rfl ‹¬ V.missing.isMissing = true›
   · -- array element
-    rename_i key rest hk xs index ha hr idx hlt old he nvc pv hc ih
-    have hidx : idx = index.toNat := rfl
-    clear_value idx; subst hidx
+    rename_i key rest hk xs idx ha hr hlt old he nvc pv hc ih
     simp only [V.nodupKeys] at hn
     simp only [listSet_eq_set]
     cases hm : nvc.isMissing with
     | true =>
       simp only [if_true]
-      have he' : (xs.set index.toNat V.null)[index.toNat]? = some .null := by simp [hlt]
+      have he' : (xs.set idx V.null)[idx]? = some .null := by simp [hlt]
       rcases put_null rest pre with h' | ⟨e, h'⟩
       · right
         rw [put_arr_hit_null hk ha hr he' h' rfl]
@@ -675,7 +552,7 @@ theorem put_missing_twice (v : V) (p : Path) (pre : Bool) (nv prev : V)
       · left; exact ⟨e, put_arr_hit_err hk ha hr he' h'⟩
     | false =>
       simp only [Bool.false_eq_true, if_false]
-      have he' : (xs.set index.toNat nvc)[index.toNat]? = some nvc := by simp [hlt]
+      have he' : (xs.set idx nvc)[idx]? = some nvc := by simp [hlt]
       rcases ih _ _ (nodupList_getElem hn he) hc with ⟨e, h'⟩ | ⟨pv', h'⟩
       · left; exact ⟨e, put_arr_hit_err hk ha hr he' h'⟩
       · right
@@ -711,38 +588,28 @@ theorem get_after_unset (v : V) (p : Path) (pre : Bool) (nv prev : V) (k : Bool)
     exact ih _ _ (nodupFields_getElem hn he) hc
   · exact absurd rfl ‹¬ V.missing.isMissing = true›
   · exact absurd rfl ‹¬ V.missing.isMissing = true›
-  · rename_i key rest hk xs index ha hr idx hlt old he nvc pv hc ih
-    have hidx : idx = index.toNat := rfl
-    clear_value idx; subst hidx
+  · rename_i key rest hk xs idx ha hr hlt old he nvc pv hc ih
     simp only [V.nodupKeys] at hn
     rw [get_cons_arr _ _ _ _ hk, listSet_eq_set]
-    cases hp : parseIndex key with
-    | none => left; rfl
-    | some j =>
-      have := atoi_of_parseIndex hp
-      rw [ha] at this
-      injection this with this
-      subst this
-      simp only [Int.toNat_natCast] at he hlt ⊢
-      simp only [List.getElem?_set_self hlt]
-      cases hm : nvc.isMissing with
-      | true =>
-        simp only [if_true]
-        rcases get_null rest false k with h' | h'
-        · right; exact h'
-        · left; exact h'
-      | false =>
-        simp only [Bool.false_eq_true, if_false]
-        exact ih _ _ (nodupList_getElem hn he) hc
+    simp only [ha, List.getElem?_set_self hlt]
+    cases hm : nvc.isMissing with
+    | true =>
+      simp only [if_true]
+      rcases get_null rest false k with h' | h'
+      · right; exact h'
+      · left; exact h'
+    | false =>
+      simp only [Bool.false_eq_true, if_false]
+      exact ih _ _ (nodupList_getElem hn he) hc
   · exact absurd rfl ‹¬ V.missing.isMissing = true›
   · exact absurd rfl ‹¬ V.missing.isMissing = true›
 
 /-! ### a write leaves unrelated paths alone -/
 
-/-- two segments may address the same child: equal strings, or numerals with the same value
-    ("1", "01", "+1" all index element 1 of an array for `put`). -/
+/-- two segments may address the same child: equal strings, or array indexes (ParseIndex) with
+    the same value ("1", "01", "001" all index element 1 of an array, for `put` and for `get`). -/
 def segAlias (a b : String) : Bool :=
-  a == b || (match atoi a, atoi b with
+  a == b || (match parseIndex a, parseIndex b with
     | some i, some j => i == j
     | _, _ => false)
 
@@ -819,7 +686,7 @@ theorem getField_set {fs : List (String × V)} {i : Nat} {kk : String} {old : V}
 
 theorem segAlias_self (a : String) : segAlias a a = true := by simp [segAlias]
 
-theorem segAlias_atoi {a b : String} {i : Int} (ha : atoi a = some i) (hb : atoi b = some i) :
+theorem segAlias_parseIndex {a b : String} {i : Nat} (ha : parseIndex a = some i) (hb : parseIndex b = some i) :
     segAlias a b = true := by simp [segAlias, ha, hb]
 
 theorem diverge_cons (a b : String) (p q : Path) :
@@ -900,21 +767,15 @@ theorem put_other_path_stable (v : V) (p : Path) (x : V) (pre : Bool) (nv prev :
         exact stab_missing_of (ih _ _ _ hc hd)
       · simp only [hkb, if_false, Bool.false_eq_true]; exact Stab.rfl'
   · -- array: element present
-    rename_i key rest hk xs index ha hr idx hlt old he nvc pv hc ih
-    have hidx : idx = index.toNat := rfl
-    clear_value idx; subst hidx
+    rename_i key rest hk xs idx ha hr hlt old he nvc pv hc ih
     rw [get_cons_arr _ _ _ _ hg, get_cons_arr _ _ _ _ hg, listSet_eq_set]
     cases hp : parseIndex b with
     | none => exact Stab.rfl'
     | some j =>
       simp only
-      by_cases hj : index.toNat = j
-      · have hb := atoi_of_parseIndex hp
-        have hnn : 0 ≤ index := by
-          simp only [Bool.or_eq_true, decide_eq_true_eq, not_or] at hr; omega
-        have : index = (j : Int) := by omega
-        subst this
-        rw [segAlias_atoi ha hb] at hd
+      by_cases hj : idx = j
+      · subst hj
+        rw [segAlias_parseIndex ha hp] at hd
         simp only [if_true] at hd
         have hnm : nvc.isMissing = false := by
           cases hm : nvc.isMissing with
@@ -922,16 +783,13 @@ theorem put_other_path_stable (v : V) (p : Path) (x : V) (pre : Bool) (nv prev :
           | true =>
             have := put_missing_nil _ _ _ _ _ _ hc hm
             subst this; rw [diverge_nil_left] at hd; cases hd
-        simp only [Int.toNat_natCast] at he hlt ⊢
         simp only [hnm, Bool.false_eq_true, if_false, List.getElem?_set_self hlt, he]
         exact ih _ _ _ hc hd
       · rw [List.getElem?_set_ne hj]; exact Stab.rfl'
   · -- array: padded
-    rename_i key rest hk xs index ha hr idx hlt hvm nvc pv hc ih
-    have hidx : idx = index.toNat := rfl
-    clear_value idx; subst hidx
+    rename_i key rest hk xs idx ha hr hlt hvm hpad nvc pv hc ih
     have hnm := put_not_missing _ _ _ _ _ _ hc (by simpa using hvm)
-    have hge : xs.length ≤ index.toNat := Nat.le_of_not_lt hlt
+    have hge : xs.length ≤ idx := Nat.le_of_not_lt hlt
     rw [get_cons_arr _ _ _ _ hg, get_cons_arr _ _ _ _ hg]
     cases hp : parseIndex b with
     | none => exact Stab.rfl'
@@ -940,8 +798,8 @@ theorem put_other_path_stable (v : V) (p : Path) (x : V) (pre : Bool) (nv prev :
       rcases Nat.lt_or_ge j xs.length with hjl | hjl
       · rw [List.append_assoc, List.getElem?_append_left hjl]; exact Stab.rfl'
       · rw [List.getElem?_eq_none hjl]
-        rcases Nat.lt_trichotomy j index.toNat with hlt' | heq | hgt
-        · have e3 : (xs ++ List.replicate (index.toNat - xs.length) V.null ++ [nvc])[j]? = some .null := by
+        rcases Nat.lt_trichotomy j idx with hlt' | heq | hgt
+        · have e3 : (xs ++ List.replicate (idx - xs.length) V.null ++ [nvc])[j]? = some .null := by
             rw [List.getElem?_append_left (by simp; omega), List.getElem?_append_right hjl]
             rw [List.getElem?_replicate]; simp; omega
           rw [e3]
@@ -949,21 +807,16 @@ theorem put_other_path_stable (v : V) (p : Path) (x : V) (pre : Bool) (nv prev :
           rcases get_null q' false k with h' | h'
           · right; exact ⟨rfl, h'⟩
           · left; exact h'
-        · have hb := atoi_of_parseIndex hp
-          have hnn : 0 ≤ index := by
-            simp only [Bool.or_eq_true, decide_eq_true_eq, not_or] at hr; omega
-          have : index = (j : Int) := by omega
-          subst this
-          rw [segAlias_atoi ha hb] at hd
+        · subst heq
+          rw [segAlias_parseIndex ha hp] at hd
           simp only [if_true] at hd
-          simp only [Int.toNat_natCast] at hge ⊢
           have e3 : (xs ++ List.replicate (j - xs.length) V.null ++ [nvc])[j]? = some nvc := by
             rw [List.getElem?_append_right (by simp; omega)]
             have : j - (xs ++ List.replicate (j - xs.length) V.null).length = 0 := by simp; omega
             rw [this]; rfl
           rw [e3]
           exact stab_missing_of (ih _ _ _ hc hd)
-        · have e3 : (xs ++ List.replicate (index.toNat - xs.length) V.null ++ [nvc])[j]? = none := by
+        · have e3 : (xs ++ List.replicate (idx - xs.length) V.null ++ [nvc])[j]? = none := by
             apply List.getElem?_eq_none; simp; omega
           rw [e3]; exact Stab.rfl'
   · -- missing: create a document
